@@ -459,6 +459,19 @@ pub struct FCtx { pub names: Seq<Seq<char>>, pub dn: Seq<(String, String)>, pub 
 /// a formula: its cell and, when the token stream can be rendered, its text
 pub struct FAbs { pub pos: (u32, u32), pub text: Option<String> }
 
+/// what `format_excel_f64` makes of a number under a number format (proved on the real text in unit xlsrec: DateTime / duration flavour
+/// exactly for the date / elapsed-time formats, plain Float otherwise; serial and date system unchanged)
+pub uninterp spec fn typed_f64(v: f64, fmt: Option<CellFormat>, is_1904: bool) -> Data;
+pub open spec fn fmt_at(formats: Seq<CellFormat>, i: int) -> Option<CellFormat> { if 0 <= i < formats.len() { Some(formats[i]) } else { None } }
+/// C10 (taken from the property statement): a cached *numeric* formula result is typed by the number format of the cell's XF
+/// (ixfe, 2 bytes at offset 4 of the FORMULA record) exactly like a NUMBER record; bool / error / string results are kept as they are.
+pub open spec fn typed_cached(val: Data, d: Seq<u8>, cc: CCtx) -> Data {
+    match val { Data::Float(x) => typed_f64(x, fmt_at(cc.formats, le16(d.skip(4)) as int), cc.is_1904), _ => val }
+}
+// TRUSTED here: proved on the real text in unit xlsrec (xlsrec/format_excel_f64, clause format_f64)
+#[verifier::external_body] fn format_excel_f64(value: f64, format: Option<&CellFormat>, is_1904: bool) -> (d: Data)
+    ensures d == typed_f64(value, match format { Some(f) => Some(*f), None => None }, is_1904),
+{ unimplemented!() }
 /// [MS-XLS] 2.4.127 Formula: cell (rw 2, col 2, ixfe 2), val FormulaValue (8 bytes at 6), flags (2), chn (4), formula CellParsedFormula (at 20)
 pub open spec fn is_formula(v: RecV) -> bool { v.typ == 0x0006 && v.data.len() >= 20 }
 pub open spec fn formula_pos(d: Seq<u8>) -> (u32, u32) { (le16(d) as u32, le16(d.skip(2)) as u32) }
@@ -478,7 +491,7 @@ pub open spec fn contrib(v: RecV, fpos: (u32, u32), cc: CCtx) -> Seq<Cell<Data>>
     else if v.typ == 0x027E { opt_seq(rk_cell(d, cc.formats, cc.is_1904)) }                                       // RK
     else if v.typ == 0x00FD { match labelsst_cell(d, cc.strings) { Some(o) => opt_seq(o), None => Seq::empty() } }       // LABELSST
     else if v.typ == 0x00BD { mulrk_cells(d, cc.formats, cc.is_1904) }                                            // MULRK
-    else if is_formula(v) { match formula_value(d.subrange(6, 14)) { Some(Some(val)) => seq![Cell::mk(formula_pos(d), val)], _ => Seq::empty() } }  // FORMULA: cached value
+    else if is_formula(v) { match formula_value(d.subrange(6, 14)) { Some(Some(val)) => seq![Cell::mk(formula_pos(d), typed_cached(val, d, cc))], _ => Seq::empty() } }  // FORMULA: cached value, typed by the XF's number format (C10)
     else { Seq::empty() }
 }
 /// record ids of the sheet dispatch table (0x0200 Dimensions only sizes a buffer; 0x000A EOF ends the sheet)
